@@ -138,6 +138,8 @@ def known(key):
   """True iff `key` is listed as an OPEN finding in /verif/known_findings.jsonl (the harness then skips that region)."""
   global _KNOWN
   with NoTracing():
+    if os.environ.get('VERIF_IGNORE_KNOWN'):
+      return False
     if _KNOWN is None:
       _KNOWN = set()
       path = os.path.join(os.path.dirname(os.path.dirname(os.path.abspath(__file__))), 'known_findings.jsonl')
